@@ -44,7 +44,7 @@ func TestC12(t *testing.T) {
 	nIntr := len(cells)
 	sibCert, sibKey := genCert(t)
 	for _, proto := range []string{"netrpc", "grpc"} {
-		for _, mode := range []string{"legit", "other-cert", "sibling-cert", "plaintext", "nocert-plaintext", "chain-with-announced", "sibling-chain"} {
+		for _, mode := range []string{"legit", "other-cert", "sibling-cert", "plaintext", "nocert-plaintext", "chain-with-announced", "sibling-chain", "sibling-address"} {
 			cells = append(cells, Cell{
 				Name:   fmt.Sprintf("impostor %s second-plugin=%s", proto, mode),
 				Plugin: PluginConf{CookieKey: cookieKey, CookieValue: cookieVal, Legacy: 1, LegacyProto: proto, GRPCServer: true, TLS: "none", CertPEM: sibCert, KeyPEM: sibKey, Impostor: "legit"},
